@@ -138,6 +138,8 @@ func headKind(w []string) (kind, name string) {
 		return "aaa", w[1]
 	case n == 3 && w[0] == "ldap" && w[1] == "attribute-map":
 		return "ldapmap", w[2]
+	case n == 4 && w[0] == "no" && w[1] == "sysopt" && w[2] == "connection" && w[3] == "permit-vpn":
+		return "sysopt", "" // a managed toplevel line that itself starts with `no`
 	}
 	return "", ""
 }
@@ -464,7 +466,7 @@ func (e *executor) note(k string) {
 
 var topWords = map[string]bool{"access-list": true, "access-group": true, "object-group": true, "crypto": true, "tunnel-group": true,
 	"tunnel-group-map": true, "group-policy": true, "ip": true, "username": true, "webvpn": true, "clear": true, "route": true,
-	"interface": true, "aaa-server": true, "ldap": true}
+	"interface": true, "aaa-server": true, "ldap": true, "sysopt": true}
 
 var aclCmdRE = regexp.MustCompile(`^(no )?access-list (\S+) (?:line (\d+) )?(extended|standard) (.*)$`)
 var logRE = regexp.MustCompile(` log( \S+)*$`)
@@ -629,6 +631,22 @@ func (e *executor) execTop(cmd string, w []string) error {
 			return fmt.Errorf("built-in object cannot be cleared: %s", cmd)
 		}
 		d.removeAll(r)
+		return nil
+	}
+	// `no sysopt connection permit-vpn` is a line of the configuration; the positive form removes it
+	if cmd == "no sysopt connection permit-vpn" {
+		if d.findHead(cmd) != nil {
+			return fmt.Errorf("line exists already: %s", cmd)
+		}
+		d.add(cmd)
+		return nil
+	}
+	if cmd == "sysopt connection permit-vpn" {
+		b := d.findHead("no " + cmd)
+		if b == nil {
+			return fmt.Errorf("line to remove is not there: no %s", cmd)
+		}
+		d.removeBlock(b)
 		return nil
 	}
 	no := w[0] == "no"
@@ -1225,6 +1243,8 @@ func (d *vdev) managedView(managed map[string]bool) string {
 		w := b.words()
 		kind, name := headKind(w)
 		switch kind {
+		case "sysopt":
+			out = append(out, "[sysopt] "+b.Head)
 		case "access-group":
 			if len(w) == 5 && managed[w[4]] {
 				out = append(out, fmt.Sprintf("[access-group %s %s] %s", w[2], w[4], d.content(ref{"acl", w[1]}, 0)))
